@@ -103,7 +103,18 @@ def oracle_scripts(rng, n, focus=()):
             out.append((f"discard({c}) vs {c} draws", [st, "discard %x" % c], [st] + ["draw"] * c))
     for _ in range(n):
         st = gen_state(rng)
-        k = rng.below(5)
+        k = rng.below(6)
+        if k == 5:
+            # real reseed_rng(event e) on `size` slots, slot i  ==  operator=({seed, e*size+i, 0})
+            seed = rng.next() & 0xFFFFFFFF
+            size = rng.choice([rng.range(1, 64), rng.choice([3, 5, 6, 7, 12, 100, 1000])])
+            e = rng.choice([rng.range(1, 100), rng.below(1 << 40)])
+            i = rng.below(size)
+            if (e * size + i) >> 64 == 0:
+                out.append((f"reseed_rng(event {e}, {size} slots, slot {i}) vs init(seed, e*size+i, 0)",
+                            ["reseed %x %x %x %x" % (seed, e, size, i)],
+                            ["init %x %x 0" % (seed, e * size + i)]))
+            continue
         if k == 0:
             t = gen_count(rng)
             a = rng.below(t + 1)
